@@ -14,7 +14,7 @@ def gen(rng, cid):
     for t in range(k):
         ops = []
         for _ in range(1 + rng.below(3)):
-            b = rng.weighted([('waiter', 5), ('notifier', 6), ('bare', 2)])
+            b = rng.weighted([('waiter', 7), ('notifier', 6), ('bare', 2)])
             if b == 'waiter':
                 ops.append('lock')
                 for _ in range(rng.weighted([(1, 6), (2, 1)])):
@@ -50,14 +50,15 @@ def stats(c, r):
     return {'enqueued_waits': raw.count(' cv.enq '), 'timeouts_fired': raw.count(' ag.timeout '),
             'notify_one_pops': raw.count(' cv.pop '), 'notify_all_pops': raw.count(' cv.popall '),
             'notify_none': raw.count(' cv.none '), 'resume_dropped': raw.count(' ag.resume.dropped '),
-            'timed_signalled': raw.count(' cv.woke ') - raw.count(' cv.woke 5 1 ') if False else 0,
+            'timed_wait_signalled': raw.count(' cv.woke 5 0 1'), 'timed_wait_timed_out': raw.count(' cv.woke 5 1 1'),
+            'untimed_spurious_wake': raw.count(' cv.woke 5 1 0'),
             'pred_evals': raw.count(' pred '), 'lock_spins': raw.count(' ag.yield ') + raw.count(' ul.spin '),
             'deadlock_end': 1 if 'end deadlock' in raw else 0}
 
 
 e1check.run(dict(
     prop='C07', model='cv', harness='e1/cv.cpp', bin='e1_cv', gen=gen, nontrivial=nontrivial, stats=stats,
-    quick=1500, thorough=40000, extra=6000,
+    quick=4000, thorough=80000, extra=8000,
     rule='random programs (2-5 threads, 1-3 blocks each: waiter blocks lock;wait|wait(pred)|wait_for|wait_for(pred);unlock, notifier blocks with set/notify_one/notify_all inside or after the critical section, bare notifies) on one pika::condition_variable or condition_variable_any with a user-defined lock (via std::unique_lock or directly) or std::unique_lock<spinlock>, PRNG schedules (uniform / priority / sticky), virtual deadlines; non-trivial = at least one thread enqueued on the condition variable; distinct = distinct (program, schedule seed) text',
     assumptions=['stop_token waits (condition_variable_any::wait(lock, stop_token, pred)) are not yet in the Lean model',
                  'the user lock is modelled as an abstract mutual-exclusion lock; pika::mutex as the user lock (needs pika task identity) is not exercised by the harness',
